@@ -106,6 +106,10 @@ class Stub:
                         menu.append(m)
                 if multi and len(allops) > 1:
                     menu.append(dict(suspensions=[], assignments=[asg([o["id"] for o in allops], pool, 1, min(2, pool["avail_ram_gb"]), pl)]))
+                    # ... and with everything the pool has left: a later suspension of this container takes several ticks to write out
+                    m = dict(suspensions=[], assignments=[asg([o["id"] for o in allops], pool, pool["avail_cpu"], pool["avail_ram_gb"], pl)])
+                    if m not in menu:
+                        menu.append(m)
         if len(ready) > 1 and pools and pools[0]["avail_cpu"] >= 2:
             menu.append(dict(suspensions=[], assignments=[asg([ready[0][1][0]["id"]], pools[0], 1, 1, ready[0][0]), asg([ready[1][1][0]["id"]], pools[0], 1, 1, ready[1][0])]))
         for p in pay["pools"]:
